@@ -28,8 +28,11 @@ type input struct {
 	Ext        []byte // external content when detached and known
 	RelicBuilt bool   // relic produced the signature itself: the "relic-built" oracle applies
 	OpenSSL    bool   // also judge by openssl cms -verify / ts -verify
-	Ops        string // "" = all; otherwise comma list
-	Signer     string // relic signer module that produced it (pipeline / cat-resign)
+	// MustOpenSSL: a plain id-data SignedData relic built itself (RSA PKCS#1 v1.5 / ECDSA, SHA-2):
+	// `openssl cms -verify` must accept it as it stands
+	MustOpenSSL bool
+	Ops         string // "" = all; otherwise comma list
+	Signer      string // relic signer module that produced it (pipeline / cat-resign)
 }
 
 func (in *input) replay(op string, extra map[string]any) map[string]any {
@@ -451,7 +454,9 @@ func runOps(in *input) bool {
 	var osslIn error
 	if in.OpenSSL {
 		osslIn = opensslCMS(x, in.Ext, lx)
-		if osslIn != nil {
+		if osslIn != nil && in.MustOpenSSL && in.RelicBuilt && !strings.HasPrefix(osslIn.Error(), "not applicable") {
+			violation("relic-built:openssl-cms-verify-rejects", fmt.Sprintf("%s %s: %v", in.Src, in.Label, osslIn), in.replay("verify", nil))
+		} else if osslIn != nil {
 			run.Outcome("openssl:input-not-applicable")
 		} else {
 			run.Outcome("openssl:input-accepted")
